@@ -113,6 +113,7 @@ def run(pid: str, tier: str) -> int:
         "known_finding_hits": dict(m["known"]),
         "regression_corpus_replayed": n_corpus,
         "shards": nsh,
+        "shard_wall_s": m["shard_wall_s"],
         "python_hash_seed": os.environ.get("PYTHONHASHSEED"),
         "violation_keys": sorted({k for k, _ in violations}),
     }
